@@ -125,12 +125,18 @@ def sha(s):
 
 
 def load_known_findings(prop):
-    p = os.path.join(VERIF, "known_findings.json")
-    if not os.path.exists(p):
-        return []
-    with open(p) as f:
-        data = json.load(f)
-    return [e for e in data.get("findings", []) if e.get("property") == prop and e.get("status") == "open"]
+    """Open known findings of `prop` from known_findings.json and known_findings.d/*.json
+    (committed files; never written at run time)."""
+    import glob as _glob
+    paths = [os.path.join(VERIF, "known_findings.json")] + sorted(_glob.glob(os.path.join(VERIF, "known_findings.d", "*.json")))
+    res = []
+    for p in paths:
+        if not os.path.exists(p):
+            continue
+        with open(p) as f:
+            data = json.load(f)
+        res += [e for e in data.get("findings", []) if e.get("property") == prop and e.get("status") == "open"]
+    return res
 
 
 class Verdict:
